@@ -1,6 +1,8 @@
 import DendroModel.Model.C15
 import DendroModel.Model.C15Ext
 import DendroModel.Model.C15Nbr
+import DendroModel.Model.C15Calls
+import DendroModel.Model.C15Gen
 open DendroModel DendroModel.C15
 
 /-- filter field: `*` no filter, `-` empty set, else comma-separated ids -/
@@ -70,6 +72,13 @@ def handle (ws : List String) : String :=
         | "ancptr" => match parsePar rest, parseFiltN filt with
           | some par, some keepN => natList (ancPtrIter keepN inc par tree.size start)
           | _, _ => "bad-op"
+        | "callspre" => ids (shownL (preIterE (fun _ => true) keep t))
+        | "callspost" => ids (shownL (postIterE (fun _ => true) keep t))
+        | "callslevel" => ids (shownL (levelIterE (fun _ => true) keep t))
+        | "callsleaf" => ids (shownL (leafIterE keep t))
+        | "callspreint" => ids (shownL (preIterE (internalGuard ex t.id hasParent) keep t))
+        | "callspostint" => ids (shownL (postIterE (internalGuard ex t.id hasParent) keep t))
+        | "callschildren" => ids (shownL (childRunE keep t.cs))
         | "children" => ids (childIter keep t)
         | "childedges" => eids (childEdgeIter ekeep t)
         | "incident" => eids (incidentEdges t)
@@ -113,7 +122,8 @@ def handle (ws : List String) : String :=
         | "gensched" => match parsePar rest, ages.splitOn ":" with
           | some par, [kinds, b, sched] => match b.toNat?, kinds.toList with
             | some b, [k1, k2] =>
-              let nx := fun (c : Char) => if c == 'p' then some pvNext else if c == 'l' then some lvNext else none
+              let nx := fun (c : Char) => if c == 'p' then some pvNext else if c == 'l' then some lvNext
+                else if c == 'o' then some (poNext (2 * par.size + 2)) else if c == 'f' then some (lfNext (2 * par.size + 2)) else none
               match nx k1, nx k2 with
               | some n1, some n2 =>
                 if (tree.find? b).isNone then "bad-start" else
